@@ -40,7 +40,58 @@ def _handlers(P, cg):
     return hs, top
 
 
+FIXED_WIDTH = {"erbium::dhcp::dhcppkt::MessageType": 1, "u8": 1, "std::net::Ipv4Addr": 4}
+
+
+def fixed_width_values(ctx, rule="R7"):
+    """R7 a value of fixed width is that many octets or it is nothing: the message type (and the other one- and four-octet values, which
+    include the requested address and the server identifier the handlers compare) decodes only from an option value of exactly its width.
+    A longer value is what concatenating a repeated option produces ("REQUEST" then "RELEASE" is [3, 7]); taking its first octet answers
+    a message whose type nobody can name."""
+    P = ctx.P
+    n = 0
+    for b in P.bodies.values():
+        if b.impl_trait is None or not str(b.impl_trait).endswith("dhcppkt::DhcpParse") or b.kind == "closure" or not b.id.endswith("::parse_into"):
+            continue
+        w = FIXED_WIDTH.get(b.impl_self)
+        if w is None:
+            continue
+        n += 1
+        ctx.saw(b)
+        T = terms(P, b)
+        cfg = cfg_of(b)
+
+        def is_len_test(d):
+            if d[0] != "bin" or d[1] not in ("Eq", "Ne"):
+                return False
+            x, y = norm(d[2]), norm(d[3])
+            if x[0] == "const":
+                x, y = y, x
+            if not (y[0] == "const" and y[1] == w):
+                return False
+            sx = show(x)
+            return ("len" in sx or "etadata" in sx) and any(z[0] == "param" and z[1] == 1 for z in subterms(x))
+        good = []
+        for sb, d, te, fe in bool_switches(P, b, is_len_test):
+            good += te if d[1] == "Eq" else fe
+        writes = []
+        for bb, idx, st in b.stmts():
+            if st["p"] == (0,) and "rv" in st:
+                t = norm(T.rvalue(st["rv"], bb, idx))
+                if not (t[0] == "agg" and t[2] == "None"):
+                    writes.append((bb, st["sp"]))
+        for bb, tm in b.calls():
+            if tm["dest"] == (0,):
+                writes.append((bb, tm["sp"]))
+        bad = [(bb, sp) for bb, sp in writes if not edge_dominated(cfg, good, bb)]
+        ctx.check(bool(writes) and not bad, rule, "fixed-width-value:%s:exactly-%d-octet(s)" % (b.impl_self.rsplit("::", 1)[-1], w),
+                  ctx.where(b, bad[0][1] if bad else None),
+                  "a %s is produced from an option value whose length was not tested to be exactly %d" % (b.impl_self.rsplit("::", 1)[-1], w))
+    ctx.floor(rule, "fixed-width option value decoders", n, 3)
+
+
 def run(ctx):
+    fixed_width_values(ctx)
     # "only ever touches the lease row of the address it assigns": what else a write can delete is the schema's business (C01)
     ctx.include("C01", rules=("R7", "R1"))
     # "requests matching no configured pool yield no reply": whether a pool-carrying policy applies at all is the policy walk's (C11)
